@@ -31,9 +31,54 @@ def in_domain(x, ay):
     return 0 < ax < 1 and 0 < px < 1 and 0 < Fraction(ay) < 1
 
 
+def tied_conditionals(rng, ty, i):
+    """Conditionals tied in the component that bounds K (Case II with d(y|x) = d(y|~x), Case III with b(y|x) = b(y|~x)):
+    K = 0 exactly.  The A/B threshold difference is (1 - a_y) a_x (b0 - b1) resp. -a_y a_x (d0 - d1); a_x (and 1 - a_y
+    resp. a_y) are drawn so small that it lies far below one ulp of the compared sums and its computed sign is decided
+    by rounding; the branch on the wrong side divides by the tied difference.  Returns the 11 numbers or None."""
+    def small():
+        e = (6 + rng.below(11)) if ty == "f64" else (4 + rng.below(4))
+        return num.rnd(ty, 10.0 ** -e * (0.5 + rng.unit()))
+    x = G.float_bop(rng, ty, a_open=True) if rng.chance(1, 2) else G.grid_bop(rng, 8, a_open=True)
+    case2 = i % 2 == 0
+    hot = rng.chance(2, 3)          # Case III: the sign is open only for small a_x, small a_y and a non-dyadic tied mass
+    if hot or rng.chance(1, 2):
+        x[3] = small()
+    t = rng.choice([0.0, 0.0, 0.125, num.rnd(ty, 0.4 * rng.unit()), num.rnd(ty, 0.4 * rng.unit())])     # the tied mass
+    if hot and not case2:
+        t = num.rnd(ty, 0.4 * rng.unit())
+    if rng.chance(1, 2) and t in (0.0, 0.125):
+        k = sorted(rng.below(int((1 - t) * 64) + 1) for _ in range(2))
+        if k[0] == k[1]:
+            return None
+        lo, hi = k[0] / 64.0, k[1] / 64.0
+        ulo, uhi = 1.0 - t - lo, 1.0 - t - hi                      # exact (dyadic)
+    else:
+        lo, hi = sorted(num.rnd(ty, (1 - t) * rng.unit()) for _ in range(2))
+        if lo == hi:
+            return None
+        ulo, uhi = num.rnd(ty, num.rnd(ty, 1.0 - t) - lo), num.rnd(ty, num.rnd(ty, 1.0 - t) - hi)
+        if ulo < 0 or uhi < 0:
+            return None
+    if case2:
+        c0, c1 = [hi, t, uhi], [lo, t, ulo]                        # b0 > b1, d0 = d1
+        ay = num.rnd(ty, 1.0 - small()) if rng.chance(2, 3) else num.rnd(ty, 0.02 + 0.96 * rng.unit())
+    else:
+        c0, c1 = [t, hi, uhi], [t, lo, ulo]                        # b0 = b1, d0 > d1
+        ay = small() if hot or rng.chance(1, 3) else num.rnd(ty, 0.02 + 0.96 * rng.unit())
+    if not in_domain(x, ay):
+        return None
+    return x + c0 + c1 + [ay]
+
+
 def gen(rng, tier):
     out = []
     n = 2500 if tier == "quick" else 150000
+    for ty in ("f64", "f32"):
+        for i in range(400 if tier == "quick" else 40000):
+            nums = tied_conditionals(rng, ty, i)
+            if nums is not None:
+                out.append(Case("bdeduce", ty, "bi", "-", [], nums, tag="tied_conditionals", meta={"branch": branch(nums)}))
     for ty in ("f64", "f32"):
         k = 0
         while k < n:
